@@ -321,6 +321,10 @@ class OpsMixin:
                 if ctor is not None:
                     return ctor(args, kwargs, node, frame)
             return self.instantiate(fn, args, kwargs, node, frame)
+        if isinstance(fn, External) and fn.name in ("struct.unpack", "struct.pack") and args and isinstance(args[0], str):
+            r = self.struct_model(fn.name, args, node, frame)
+            if r is not None:
+                return r
         if isinstance(fn, External) and fn.name in ("functools.reduce", "operator.or_", "operator.add", "operator.lshift"):
             # pure standard-library functions the codecs could plausibly be written with: evaluated, not opaque
             if fn.name == "functools.reduce":
@@ -356,6 +360,54 @@ class OpsMixin:
         self.event("not-callable", value=fn, where=frame.where(node), node=node)
         raise PyRaise(Instance(self.bclasses["TypeError"], ("%r object is not callable" % self.kind_of(fn),)),
                       node, frame.where(node))
+
+    def struct_model(self, name, args, node, frame):
+        """struct.unpack / struct.pack for formats made of one byte-order character and the integer codes bBhHiIqQ"""
+        fmt = args[0]
+        order = "big"
+        if fmt[:1] in "<>!=@":
+            order = "little" if fmt[0] == "<" else "big"
+            if fmt[0] in "=@":
+                return None
+            fmt = fmt[1:]
+        sizes = {"b": 1, "B": 1, "h": 2, "H": 2, "i": 4, "I": 4, "l": 4, "L": 4, "q": 8, "Q": 8}
+        if not fmt or any(c not in sizes for c in fmt):
+            return None
+        total = sum(sizes[c] for c in fmt)
+        if name == "struct.unpack":
+            items = self.iterate(args[1], node, frame) if len(args) > 1 else None
+            if items is None:
+                return None
+            if len(items) != total:
+                raise PyRaise(ExtExcLike(self, "struct.error", "unpack requires a buffer of %d bytes" % total), node, frame.where(node))
+            out = []
+            pos = 0
+            for c in fmt:
+                chunk = items[pos:pos + sizes[c]]
+                pos += sizes[c]
+                if order == "little":
+                    chunk = list(reversed(chunk))
+                acc = 0
+                for x in chunk:
+                    acc = self.binop("|", self.binop("<<", acc, 8, node, frame), x, node, frame)
+                if c.islower():         # signed: subtract 2**n when the top bit is set
+                    nbits = 8 * sizes[c]
+                    top = self.binop("&", self.binop(">>", acc, nbits - 1, node, frame), 1, node, frame)
+                    acc = self.binop("-", acc, self.binop("<<", top, nbits, node, frame), node, frame)
+                out.append(acc)
+            return tuple(out)
+        vals = args[1:]
+        if len(vals) != len(fmt):
+            return None
+        cells = []
+        for c, v in zip(fmt, vals):
+            part = [self.binop("&", self.binop(">>", v, 8 * i, node, frame), 0xFF, node, frame) for i in range(sizes[c])]
+            if order == "big":
+                part.reverse()
+            cells.extend(norm_int(x) for x in part)
+        if all(isinstance(x, int) for x in cells):
+            return bytes(cells)
+        return Buf(cells=cells)
 
     # ------------------------------------------------------------------
     # truth / compare with refinement
@@ -990,6 +1042,11 @@ class OpsMixin:
             raise PyRaise(Instance(self.bclasses["TypeError"], ("object of type %r has no len()" % self.kind_of(v),)),
                           node, frame.where(node))
         return Unknown("len")
+
+
+def ExtExcLike(I, name, msg):
+    from .standin import ExtExc
+    return ExtExc(name, ("Exception", "BaseException"))
 
 
 class DictView:
